@@ -390,7 +390,10 @@ pub fn expr_src(e: &Expr, min: u8) -> String {
             // spec table says left-to-right, so nested `**` is always parenthesised (recorded as
             // an observation in the report, not compared here)
             let (lmin, rmin) = if *op == BinOp::Pow { (8, 8) } else { (p, p + 1) };
-            let text = format!("{} {} {}", expr_src(l, lmin), op.sym(), expr_src(r, rmin));
+            let left = expr_src(l, lmin);
+            // `&` is the other spelling of AND (same precedence): used for a third of the ANDs
+            let sym = if *op == BinOp::And && left.len() % 3 == 0 { "&" } else { op.sym() };
+            let text = format!("{left} {sym} {}", expr_src(r, rmin));
             if p < min {
                 format!("({text})")
             } else {
@@ -1489,7 +1492,8 @@ impl<'a> Gen<'a> {
         let missing_inout = named && self.sab("call-missing-inout");
         let arrow_mismatch = named && self.sab("call-arrow-mismatch");
         for (p, planned) in f.params.iter().zip(plan.into_iter()) {
-            let pname = if named { Some(p.name.clone()) } else { None };
+            // identifiers are case-insensitive: a quarter of the formal names are spelled in capitals
+            let pname = if named { Some(self.vary_case(&p.name)) } else { None };
             match p.dir {
                 Dir::In => {
                     if named && self.rng.chance(1, 4) {
@@ -2125,6 +2129,16 @@ impl<'a> Gen<'a> {
         FbDef { name, params, vars, body }
     }
 
+    /// Another spelling of an identifier the language compares case-insensitively (formal
+    /// parameter names in calls, struct field names).
+    fn vary_case(&mut self, name: &str) -> String {
+        if self.rng.chance(1, 4) {
+            name.to_ascii_uppercase()
+        } else {
+            name.to_string()
+        }
+    }
+
     fn index_vars(&self) -> Vec<String> {
         let strict = self.profile == Profile::Strict;
         self.int_vars(&KINDS)
@@ -2188,7 +2202,7 @@ impl<'a> Gen<'a> {
                 AggDecl::Str(_, fields) => {
                     for (f, t) in fields {
                         if *t == ty {
-                            cands.push(Expr::Fld(a.clone(), f.clone()));
+                            cands.push(Expr::Fld(a.clone(), self.vary_case(f)));
                         }
                     }
                 }
@@ -2217,6 +2231,7 @@ impl<'a> Gen<'a> {
                 let (f, t) = self.rng.pick(&fields).clone();
                 let e = self.rhs_for(t);
                 let f = if self.sab("field-unknown") { "nofield".to_string() } else { f };
+                let f = self.vary_case(&f);
                 Some(Stmt::AssignFld(a, f, e))
             }
         }
@@ -2352,7 +2367,8 @@ impl<'a> Gen<'a> {
         }
         let mut args: Vec<Arg> = Vec::new();
         for (p, planned) in fb.params.iter().zip(plan.into_iter()) {
-            let pname = if named { Some(p.name.clone()) } else { None };
+            // identifiers are case-insensitive: a quarter of the formal names are spelled in capitals
+            let pname = if named { Some(self.vary_case(&p.name)) } else { None };
             match p.dir {
                 Dir::In => {
                     if named && self.rng.chance(1, 4) {
@@ -3084,6 +3100,11 @@ pub fn raw_witnesses() -> Vec<(&'static str, &'static str)> {
         (
             "temp-initialiser-family",
             "PROGRAM P\nVAR\n  x : INT; y : BOOL;\nEND_VAR\nVAR_TEMP\n  t : INT := TRUE; u : BOOL := 3;\nEND_VAR\nx := t;\ny := u;\nEND_PROGRAM\n",
+        ),
+        (
+            // the run-time resolves every variable name with the source spelling
+            "variable-name-case",
+            "PROGRAM P\nVAR\n  r : INT; Xy : INT;\nEND_VAR\nXY := INT#3;\nr := xy;\nEND_PROGRAM\n",
         ),
         (
             "return-variable-case",
